@@ -160,9 +160,12 @@ def run_grid(case: dict[str, Any]) -> Outcome:
         for j in range(len(rec.cursors)):
             for req in ("next", "cancel"):
                 for shape in ("tick", "v", "w"):
-                    r = w.exchange(b, rec.cursors[j].text, rec.call.text, rec.identity, shape=shape, v=3, cancel=(req == "cancel"))
-                    obs = judge_foreign(out, rec, b, r, req, shape, cache, f"cursor[{j}]")
-                    seen[obs] = seen.get(obs, 0) + 1
+                    # with the call token echoed, and with it omitted (the wire protocol tolerates omission while the
+                    # worker's call-state cache is warm — a foreign endpoint must still refuse)
+                    for call_text, tag in ((rec.call.text, ""), (None, "/call_omitted")):
+                        r = w.exchange(b, rec.cursors[j].text, call_text, rec.identity, shape=shape, v=3, cancel=(req == "cancel"))
+                        obs = judge_foreign(out, rec, b, r, req, shape, cache, f"cursor[{j}]{tag}")
+                        seen[obs] = seen.get(obs, 0) + 1
         # control: the same tokens are still good at their own endpoint
         for j in (0, len(rec.cursors) - 1):
             r = w.exchange(a, rec.cursors[j].text, rec.call.text, rec.identity, shape=tk.shape_of(a), v=3)
@@ -188,6 +191,12 @@ _op = st.one_of(
     st.builds(
         lambda s, j, cs, b, req, shape, w: {"op": "present", "s": s, "j": j, "call_of": cs, "b": b, "req": req, "shape": shape, "w": w},
         st.integers(0, 2), st.integers(0, 5), st.one_of(st.none(), st.integers(0, 2)), st.integers(0, len(NAMES) - 1),
+        st.sampled_from(["next", "next", "cancel"]), st.sampled_from(["auto", "tick", "v", "w"]), st.integers(0, 1),
+    ),
+    # the same presentation with the call token omitted (call_of == -1)
+    st.builds(
+        lambda s, j, b, req, shape, w: {"op": "present", "s": s, "j": j, "call_of": -1, "b": b, "req": req, "shape": shape, "w": w},
+        st.integers(0, 2), st.integers(0, 5), st.integers(0, len(NAMES) - 1),
         st.sampled_from(["next", "next", "cancel"]), st.sampled_from(["auto", "tick", "v", "w"]), st.integers(0, 1),
     ),
 )
@@ -222,13 +231,17 @@ def run_history(case: dict[str, Any]) -> Outcome:
             else:
                 rec = recs[op["s"] % len(recs)]
                 j = op["j"] % len(rec.cursors)
-                call_rec = rec if op["call_of"] is None else recs[op["call_of"] % len(recs)]
+                omitted = op["call_of"] == -1
+                call_rec = rec if (op["call_of"] is None or omitted) else recs[op["call_of"] % len(recs)]
                 target = NAMES[op["b"]]
                 w = workers[op["w"]]
                 shape = tk.shape_of(rec.method) if op["shape"] == "auto" else op["shape"]
                 cancel = op["req"] == "cancel"
-                r = w.exchange(target, rec.cursors[j].text, call_rec.call.text, ident, shape=shape, v=3, cancel=cancel)
+                r = w.exchange(target, rec.cursors[j].text, None if omitted else call_rec.call.text, ident, shape=shape, v=3, cancel=cancel)
                 presented += 1
+                if omitted and target == rec.method:
+                    out.label("own_call_omitted")  # served or refused depending on cache warmth: not judged here
+                    continue
                 if target == rec.method and call_rec is rec:
                     if shape == tk.shape_of(rec.method):
                         judge_own(out, rec, j, r, op["req"], 3, f"op[{k}]")
